@@ -52,6 +52,9 @@ TEMPLATES = [
     "lcd.glyph(0, {H})",
     "lcd.glyph({H}, [0, 1, 2, 3, 4, 5, 6, 7])",
     "x = {H}",
+    "a = -2\nx = a ** 10**9",
+    "a = -3\nb = 10**8\nsleep(a ** b)",
+    "n = 10**6\nx = (-2) ** (n * n)",
     "x, y = {H}, 2",
     "x = 1\nx += {H}",
     "led.set_brightness({H})",
@@ -107,6 +110,18 @@ def hostile_exprs(canary: str) -> List[str]:
         "2**2**2**2**2**2",
         "(7**77777777) % 3",
         "-(2**10**8)",
+        "(-7) ** 40000000",
+        "(-2) ** 10**9",
+        "(-3) ** (10**8 + 1)",
+        "(-10**3) ** 10**7",
+        "(0 - 5) ** 99999999",
+        "2.0 ** 10**6",
+        "(10**1000) ** (10**1000)",
+        "(3 << 4000) << 4000",
+        "abs(-9) ** 10**9",
+        "max(2, 3) ** 10**9",
+        "min(-2, 3) ** (10**9 + 1)",
+        "int(-4.0) ** 10**9",
         "'a' * 10**10",
         "[0] * 10**10",
         "12345678901234567890123456789012345678901234567890",
